@@ -111,6 +111,13 @@ class E2Check:
                 return {"kind": "generator-rejects-valid-spec", "error": se.strip().splitlines()[-1] if se.strip() else ""}
             P = Program(spec_dir, out, repo.REPO)
             names = [n for n in P.decls if n == cls_name or (cls_name is None)]
+            if cls_name is not None and names:
+                # and the classes of the same program that hold an instance of it: a summary the class fails to keep
+                # (the mode it hands back) shows in what its holders write / read afterwards
+                from xmlsem import ir as XI
+                users = [n for n, d in P.decls.items() if n not in names and any(
+                    i.tag in ("field", "array") and str(i.type).split(":")[0] == cls_name for i in XI.flatten_own(d.body))]
+                names += users[:6]
             if not names:
                 names = [n for n in P.decls if n.split(".")[0] == (cls_name or "T").split(".")[0]]
             budget = 60 if self.tier == "quick" else 400
@@ -191,7 +198,7 @@ class E2Check:
     def run_e2(self, closure=None):
         what = e2.WHAT_FOR[self.prop]
         try:
-            pipe = e2.run_pipeline(what, self.tier, self.seed, repo.REPO)
+            pipe = e2.run_pipeline(what, self.tier, self.seed, repo.REPO, prop=self.prop)
         except Exception as e:
             print(f"CHECKER-ERROR property={self.prop} {e!r}")
             traceback.print_exc()
@@ -442,6 +449,11 @@ class E2Check:
         if undecided:
             for u in undecided[:10]:
                 print(f"UNDECIDED obligation={u['obligation']} spec={u['spec']} solver={u['status']} (native search found no failure)")
+            return 2
+        if skipped:
+            # cannot happen by construction (obligations are skipped only after refutations of this property, which are
+            # reported above) - a safety net: obligations that were not solved are never passed over in silence
+            print(f"UNDECIDED property={self.prop}: {skipped} obligations were not solved and no violation was reported")
             return 2
         return 0
 
